@@ -57,7 +57,9 @@ def _simp(e, notes):
 
 def _simp_call(e, notes):
     f = _simp(e["f"], notes)
-    args = [_simp(a, notes) for a in e["a"]]
+    for i in range(len(e["a"])):          # the Go code stores the simplified arguments into the shared slice
+        e["a"][i] = _simp(e["a"][i], notes)
+    args = e["a"]
     if not args:
         if f["k"] == "sym":
             if L.ARITY.get(f["n"], 0) > 0:
@@ -113,7 +115,7 @@ def _simp_lam(e, notes):
             if i == len(body["a"]):
                 return _simp(f, notes)
             return _simp_call({"k": "call", "f": f, "a": rest}, notes)
-    return {"k": "lam", "p": ps, "b": body}
+    return e      # the Go code returns the original node: only the argument slices changed in place
 
 
 def classify(p, q):
@@ -160,8 +162,8 @@ def c22_named():
 
 
 def run(ctx):
-    jobs = ctx.pick([("simp", 4), ("simptyped", 4), ("query", 4)],
-                    [("simp", 5), ("simptyped", 5), ("query", 5)])
+    jobs = ctx.pick([("simp", 4), ("simptyped", 3), ("query", 4)],
+                    [("simp", 4), ("simptyped", 5), ("query", 4)])
     enum = L.enumerate_programs(ctx, jobs, "prog")
     binary = ctx.go_build("vh-lang")
     progs = []
@@ -170,8 +172,8 @@ def run(ctx):
     nenum = len(progs)
     named = c22_named() + L.named_programs()
     progs.extend(named)
-    progs.extend(L.random_programs(ctx.seed, ctx.pick(1200, 20000), maxdepth=ctx.pick(4, 5), maxsize=ctx.pick(18, 24)))
-    progs.extend(L.random_programs(ctx.seed + 7919, ctx.pick(800, 12000), maxdepth=4, maxsize=ctx.pick(18, 24), queries=True))
+    progs.extend(L.random_programs(ctx.seed, ctx.pick(800, 10000), maxdepth=ctx.pick(4, 5), maxsize=ctx.pick(18, 24)))
+    progs.extend(L.random_programs(ctx.seed + 7919, ctx.pick(800, 6000), maxdepth=4, maxsize=ctx.pick(18, 24), queries=True))
 
     cases = [{"id": i, "p": p, "simplify": True} for i, p in enumerate(progs)]
     vs = ctx.run_cases(binary, "observe", cases, name="observe", timeout_ms=30000)
